@@ -4,6 +4,7 @@ MODULES = {
     'verif_core.rs': {'owner': 'crates/lib/src/lib.rs', 'name': 'verif_core'},
 }
 MODULES['verif_common.rs'] = {'owner': 'crates/lib/src/lib.rs', 'name': 'verif_common'}
+MODULES['verif_retry_valve.rs'] = {'owner': 'crates/lib/src/protocols/valve/protocol.rs', 'name': 'verif_retry_valve'}
 GENERATED = {}
 
 HARNESSES = {
@@ -26,11 +27,23 @@ HARNESSES = {
         'what': 'identity conversion', 'bounded': True, 'bound': 'slices up to 8 bytes'},
 }
 
-HARNESSES['common_valve'] = {'module': 'verif_common.rs', 'target': 'impl CommonResponse for valve::Response, impl CommonPlayer for valve::ServerPlayer',
+HARNESSES['common_valve_old'] = {'module': 'verif_common.rs', 'target': 'impl CommonResponse for valve::Response, impl CommonPlayer for valve::ServerPlayer',
     'what': 'accessors return the very fields (pointer identity for strings, equality for all scalar values), as_json == accessors, as_original is self', 'bounded': True, 'bound': '1 player'}
+HARNESSES['retry_wiring_valve'] = {'module': 'verif_retry_valve.rs', 'target': 'protocols::valve::protocol::ValveProtocol::get_request_data',
+    'what': 'wrapper == retry spec over all outcome scripts {no reply, send failure, PacketBad, PacketUnderflow, valid}^6 and r in 0..=3: attempts = min(first non-timeout, r+1), same arguments each attempt, result = first non-timeout outcome or last timeout error',
+    'bounded': True, 'bound': 'r <= 3 (6 scripted attempts)'}
 SETS = {
+    'C10': ['retry_wiring_valve'],
     'C15': ['common_valve'],
     'C17': ['varint_roundtrip_all_i32', 'varint_decode_matches_reference', 'byteorder_specs', 'byteorder_read_u16_into_spec',
             'idiom_position_eq_spec', 'idiom_skip_take_position_eq_spec', 'idiom_chunks2_position_eq_spec', 'rotr_spec',
             'identity_try_into_spec'],
 }
+
+COMMON = ['common_valve', 'common_gamespy_one', 'common_gamespy_two', 'common_gamespy_three', 'common_java', 'common_bedrock', 'common_bedrock_no_map', 'common_bedrock_game_mode', 'common_quake_one', 'common_quake_two', 'common_unreal2', 'common_epic', 'common_ffow', 'common_theship', 'common_theship_game_version', 'common_jc2m', 'common_savage2', 'common_minetest', 'common_mindustry', 'common_eco']
+for _n in COMMON:
+    HARNESSES[_n] = {'module': 'verif_common.rs', 'target': 'impl CommonResponse / CommonPlayer: ' + _n[7:],
+        'what': 'accessors return the very fields RESPONSES.md assigns to them (pointer identity for strings, equality for all scalar values), as_json() equals the accessors, as_original() is the same object', 'bounded': True, 'bound': 'lists of one player; string contents fixed (identity is content independent); all numeric/bool fields symbolic'}
+SETS['C15'] = COMMON
+# scratch-copy tweak needed to compile the epic / minetest types (features off by default): add them to `default`
+FEATURE_PATCH = {'C15': ('crates/lib/Cargo.toml', 'default = ["games", "services", "game_defs"]', 'default = ["games", "services", "game_defs", "tls", "serde"]')}
